@@ -202,3 +202,16 @@ Example sites_filter_example :
   r_sites (simplify_spec sites_tables [0]%nat (mkOpts false false false false true false true true true)) = [0; 1]%nat /\
   spec_target sites_tables [0]%nat default_opts (1%nat, 1%nat, (-1)%Z) = None.
 Proof. repeat split; vm_compute; reflexivity. Qed.
+
+(* individuals in a non parents-first row order (simplify accepts any order): individual 0
+   has its parent at the HIGHER row 1, individual 2 is unreferenced.  Both retained
+   individuals keep the link (two-pass remap in simplifier_finalise_individual_references);
+   a dropped parent becomes -1. *)
+Definition ped_tables : tables :=
+  mkTables 4 [(1, 0, -1, 0); (1, 0, -1, 1); (0, 1, -1, -1)]%Z
+           [(0%Z, 4%Z, 2%nat, 0%nat); (0%Z, 4%Z, 2%nat, 1%nat)] [] [] [[1; 2]; []; []]%Z 0.
+Example individual_parents_example :
+  r_inds (simplify_spec ped_tables [0; 1]%nat default_opts) = [(0%nat, [1; -1]%Z); (1%nat, [])] /\
+  r_inds (simplify_spec ped_tables [0; 1]%nat (mkOpts false false false false true true false true true))
+  = [(0%nat, [1; 2]%Z); (1%nat, []); (2%nat, [])].
+Proof. split; vm_compute; reflexivity. Qed.
